@@ -359,6 +359,20 @@ func checkC10(c caseC10, rec *ev.Rec) *ev.Failure {
 	if !e.mustFail && base.Exit != 0 {
 		return ev.Fail(fmt.Sprintf("gxz %q on valid input fails with exit status %d", e.args, base.Exit), "op", c.Op, "how", "undisturbed", "inv", "must_succeed")
 	}
+	// close calls on descriptors that were opened for writing (the output)
+	outFDs := map[int]bool{}
+	{
+		open := map[int]bool{}
+		for _, cl := range base.Calls {
+			switch {
+			case (cl.Name == "openat" || cl.Name == "open") && cl.Mut && cl.Ret >= 0:
+				open[int(cl.Ret)] = true
+			case cl.Name == "close" && open[cl.FD]:
+				outFDs[cl.K] = true
+				delete(open, cl.FD)
+			}
+		}
+	}
 	tmpCreated := -1
 	for _, cl := range base.Calls {
 		if cl.Mut && (cl.Name == "openat" || cl.Name == "open") && tmpCreated < 0 {
@@ -414,8 +428,23 @@ func checkC10(c caseC10, rec *ev.Rec) *ev.Failure {
 			if !r.Fired {
 				continue
 			}
-			if f := e.inspect(dir, r, so, false, fmt.Sprintf("fault errno %d injected into system call #%d %s(%s%s fd %d)", en, cl.K, cl.Name, cl.Path, cl.Path2, cl.FD)); f != nil {
+			what := fmt.Sprintf("fault errno %d injected into system call #%d %s(%s%s fd %d)", en, cl.K, cl.Name, cl.Path, cl.Path2, cl.FD)
+			if f := e.inspect(dir, r, so, false, what); f != nil {
 				return f
+			}
+			// a failing write, close of the output, rename or remove is a failed run
+			decisive := false
+			switch cl.Name {
+			case "write", "pwrite", "renameat", "renameat2", "rename", "unlinkat", "unlink":
+				// (a failing read is not in this list: gxz may succeed after a
+				// transient read error - bufio retries - and the output is then
+				// complete, which invariant (c) checks)
+				decisive = true
+			case "close":
+				decisive = outFDs[cl.K]
+			}
+			if decisive && r.Exit == 0 {
+				return ev.Fail(fmt.Sprintf("gxz %q: %s, yet the exit status is 0", e.args, what), "op", c.Op, "how", "fault", "inv", "failed_call_exit_0", "call", cl.Name)
 			}
 			phase := "before_tmp"
 			if tmpCreated >= 0 && cl.K >= tmpCreated {
